@@ -1,32 +1,341 @@
 // Simulated OpenMP runtime (GOMP ABI as emitted by gcc 12) + seeded scheduler.
-// STAGE 1: serial runtime (team of one). Replaced by the baton-passing scheduler in stage 2.
+//
+// Worker "threads" are real pthreads from a persistent pool (so __thread
+// storage behaves as under libgomp) but exactly ONE task is runnable at any
+// instant: a baton is passed under a mutex. Who runs next is the only
+// nondeterminism and every such decision is a draw from the choice tape.
+// Yield points: wrapped libc calls, GOMP loop chunk hand-out, pre-drawn tick
+// indices (basic-block preemption through the trace-pc callback).
+// When no scheduled region is active the runtime degenerates to a team of one.
 #include "seams.h"
+#include "sched.h"
 #include "../core/sim.h"
+#include <algorithm>
+#include <condition_variable>
+#include <mutex>
+#include <pthread.h>
+#include <unistd.h>
+#include <vector>
 
 namespace sim {
-void yield_point(int) {}
-void sched_end_of_run(uint64_t* h) { *h = 0; }
+
 int g_sim_cores = 4;
+
+namespace {
+
+struct Team {
+    int n = 1; int remaining = 0; struct Task* master = nullptr;
+    bool ws_init = false; long next = 0, end = 0, incr = 1, chunk = 1; int ws_ended = 0;   // dynamic work share
+};
+struct Task {
+    int id = 0;
+    bool pool_thread = false;
+    std::condition_variable cv;
+    enum St { IDLE, READY, BLOCKED } st = IDLE;
+    std::function<void()> work;
+    Team* team = nullptr;                 // team this task is a *worker* of (null for main and caller tasks)
+    uint32_t prio = 0;
+    Violation* viol = nullptr;
+    int wait_kind = 0;                    // 0 none, 1 team join, 2 callers join, 3 critical section, 4 loop barrier
+};
+
+std::mutex M;
+Task g_main;                              // the run's main task (the harness thread)
+std::vector<Task*> g_tasks;               // active tasks of the current scheduled run (main first)
+std::vector<Task*> g_pool;                // persistent pool threads
+Task* g_current = nullptr;
+thread_local Task* tl_task = nullptr;
+thread_local Team* tl_team = nullptr;     // team of the innermost parallel region this thread executes
+thread_local int tl_tid = 0;
+SchedParams g_params;
+SchedStats g_stats;
+uint64_t g_sched_hash = 0;
+std::vector<uint64_t> g_preempt_ticks;
+size_t g_preempt_next = 0;
+uint64_t g_region_tick0 = 0;
+int g_callers_running = 0, g_next_id = 1;
+bool g_last_was_fseek = false;
+bool g_poisoned = false;
+Task* g_critical_owner = nullptr;
+
+void mix_sched(uint64_t a, uint64_t b, uint64_t c) { g_sched_hash ^= a * 0x9E3779B97F4A7C15ull + b * 0xC2B2AE3D27D4EB4Full + c; g_sched_hash *= 1099511628211ull; g_sched_hash ^= g_sched_hash >> 29; }
+
+std::vector<Task*> ready_tasks(Task* except) {
+    std::vector<Task*> r;
+    for (auto* t : g_tasks) if (t->st == Task::READY && t != except) r.push_back(t);
+    return r;
 }
 
+void arm_next_preempt() {
+    if (g_sched_active && g_preempt_next < g_preempt_ticks.size()) set_next_preempt_tick(g_region_tick0 + g_preempt_ticks[g_preempt_next]);
+    else set_next_preempt_tick(~0ull);
+}
+void start_region_clock() { g_region_tick0 = g_ticks; g_preempt_next = 0; arm_next_preempt(); }
+
+void switch_to(std::unique_lock<std::mutex>& lk, Task* me, Task* next, int site) {
+    g_stats.switches++;
+    mix_sched((uint64_t)next->id, (uint64_t)site, g_ticks - g_region_tick0);
+    L.ev("sched.switch", me->id, next->id, site);
+    g_current = next;
+    next->cv.notify_one();
+    me->cv.wait(lk, [&] { return g_current == me; });
+}
+
+Task* pick_any_ready(Task* me) {
+    auto r = ready_tasks(me);
+    if (r.empty()) return nullptr;
+    return r[r.size() > 1 ? draw((uint32_t)r.size()) : 0];
+}
+
+[[noreturn]] void deadlock(const char* what) {
+    char msg[200]; int n = snprintf(msg, sizeof msg, "SIM-HANG api=%s deadlock: no runnable task while %s\n", current_api(), what);
+    if (write(2, msg, (size_t)n) < 0) {}
+    _exit(EXIT_HANG);
+}
+
+template <class Cond> void block_until(Task* me, Cond cond, const char* what, int kind) {
+    std::unique_lock<std::mutex> lk(M);
+    while (!cond()) {
+        me->st = Task::BLOCKED; me->wait_kind = kind;
+        Task* next = pick_any_ready(me);
+        if (!next) deadlock(what);
+        switch_to(lk, me, next, 8);
+        me->st = Task::READY; me->wait_kind = 0;
+    }
+}
+
+void pool_thread_main(Task* me) {
+    tl_task = me;
+    std::unique_lock<std::mutex> lk(M);
+    for (;;) {
+        me->cv.wait(lk, [&] { return g_current == me && me->st == Task::READY && me->work; });
+        std::function<void()> w = me->work;
+        lk.unlock();
+        try { w(); } catch (Violation& v) { me->viol = new Violation(v); }
+        lk.lock();
+        me->work = nullptr;
+        me->st = Task::IDLE;
+        g_tasks.erase(std::remove(g_tasks.begin(), g_tasks.end(), me), g_tasks.end());
+        if (me->team) { Team* tm = me->team; me->team = nullptr; if (--tm->remaining == 0 && tm->master->st == Task::BLOCKED && tm->master->wait_kind == 1) tm->master->st = Task::READY; }
+        else { if (--g_callers_running == 0 && g_main.st == Task::BLOCKED && g_main.wait_kind == 2) g_main.st = Task::READY; }
+        Task* next = pick_any_ready(me);
+        if (!next) deadlock("a task finished");
+        g_stats.switches++;
+        mix_sched((uint64_t)next->id, 99, g_ticks - g_region_tick0);
+        L.ev("sched.finish", me->id, next->id);
+        g_current = next;
+        next->cv.notify_one();
+    }
+}
+void* pool_trampoline(void* p) { pool_thread_main((Task*)p); return nullptr; }
+
+Task* acquire_pool_task() {
+    for (auto* t : g_pool) if (t->st == Task::IDLE && !t->work) return t;
+    Task* t = new Task; t->pool_thread = true;
+    g_pool.push_back(t);
+    pthread_t th; pthread_attr_t a; pthread_attr_init(&a); pthread_attr_setstacksize(&a, 8u << 20);   // glibc's default thread stack
+    if (pthread_create(&th, &a, pool_trampoline, t) != 0) { fprintf(stderr, "HARNESS-BUG: pthread_create failed\n"); _exit(EXIT_HARNESS); }
+    pthread_attr_destroy(&a);
+    pthread_detach(th);
+    return t;
+}
+
+Task* new_task(std::function<void()> work, Team* team) {
+    Task* t = acquire_pool_task();
+    // pool threads outlive runs: their cached per-thread ZSTD context must not leak history into the next task
+    t->id = g_next_id++; t->team = team; t->viol = nullptr;
+    t->work = [w = std::move(work)]() { zstd_thread_reset(); w(); zstd_thread_reset(); };
+    t->st = Task::READY; t->prio = draw(1u << 16); t->wait_kind = 0;
+    g_tasks.push_back(t);
+    g_stats.tasks++;
+    return t;
+}
+
+}  // namespace
+
+// ---------------------------------------------------------------- public scheduler API
+void sched_begin(const SchedParams& p) {
+    std::unique_lock<std::mutex> lk(M);
+    g_params = p; g_stats = SchedStats(); g_sched_hash = 1469598103934665603ull;
+    g_preempt_ticks = p.preempt_ticks; std::sort(g_preempt_ticks.begin(), g_preempt_ticks.end());
+    g_main.id = 0; g_main.st = Task::READY; g_main.team = nullptr; g_main.wait_kind = 0; g_main.prio = draw(1u << 16);
+    tl_task = &g_main; g_current = &g_main;
+    g_tasks.clear(); g_tasks.push_back(&g_main);
+    g_callers_running = 0; g_next_id = 1; g_critical_owner = nullptr; g_last_was_fseek = false;
+    g_sim_cores = p.cores > 0 ? p.cores : 4;
+    g_sched_active = true;
+    start_region_clock();
+}
+
+void sched_end() {
+    std::unique_lock<std::mutex> lk(M);
+    if (g_tasks.size() > 1) g_poisoned = true;      // tasks still in flight: this process cannot host another run
+    g_sched_active = false;
+    set_next_preempt_tick(~0ull);
+}
+
+SchedStats sched_stats() { return g_stats; }
+bool sched_poisoned() { return g_poisoned; }
+
+int sched_spawn(std::function<void()> body) {
+    std::unique_lock<std::mutex> lk(M);
+    g_callers_running++;
+    Task* t = new_task(std::move(body), nullptr);
+    return t->id;
+}
+
+void sched_join_all() {
+    block_until(&g_main, [] { return g_callers_running == 0; }, "joining caller tasks", 2);
+    Violation* first = nullptr;
+    for (auto* t : g_pool) if (t->viol) { if (!first) first = t->viol; else delete t->viol; t->viol = nullptr; }
+    if (first) { Violation v = *first; delete first; throw v; }
+}
+
+void sched_end_of_run(uint64_t* h) {
+    *h = g_stats.switches ? g_sched_hash : 0;
+    if (g_sched_active) sched_end();
+    for (auto* t : g_pool) if (t->viol) { delete t->viol; t->viol = nullptr; }
+}
+
+// ---------------------------------------------------------------- yield points
+void yield_point(int site) {
+    if (!g_sched_active) return;
+    Task* me = tl_task;
+    if (!me || g_current != me) return;           // threads outside the simulation
+    std::unique_lock<std::mutex> lk(M);
+    g_stats.yields++;
+    bool forced = false;
+    if (site == SITE_TICK) { forced = true; g_preempt_next++; arm_next_preempt(); }
+    bool was_fseek = g_last_was_fseek;
+    g_last_was_fseek = site == SITE_FSEEK;
+    auto r = ready_tasks(me);
+    if (r.empty()) return;
+    if (forced) g_stats.tick_preemptions++;
+    bool sw = false;
+    switch (g_params.policy) {
+        case 0: sw = false; break;                                                        // run to completion
+        case 1: sw = draw(g_params.switch_den) < g_params.switch_num; break;              // random at yield points
+        case 2: sw = true; break;                                                          // round robin
+        case 3: sw = (site == SITE_FREAD && was_fseek) || draw(16) == 1; break;            // seek stealer: between fseek and fread
+        default: { for (auto* t : r) if (t->prio > me->prio) sw = true;                    // priorities with random change points (PCT style)
+                   if (draw(g_params.switch_den) < g_params.switch_num) { me->prio = draw(1u << 16); for (auto* t : r) if (t->prio > me->prio) sw = true; } break; }
+    }
+    if (forced) sw = true;
+    if (!sw) return;
+    Task* next;
+    if (g_params.policy == 2) { next = r[0]; for (auto* t : r) if (t->id > me->id) { next = t; break; } }
+    else if (g_params.policy >= 4 && !forced) { next = r[0]; for (auto* t : r) if (t->prio > next->prio) next = t; }
+    else next = r[r.size() > 1 ? draw((uint32_t)r.size()) : 0];
+    if (site == SITE_FREAD && was_fseek) g_stats.seek_read_split++;
+    switch_to(lk, me, next, site);
+}
+
+}  // namespace sim
+
+// ======================================================================= GOMP ABI
+using namespace sim;
+
 extern "C" {
-static long g_it, g_end, g_incr, g_chunk;
-void GOMP_parallel(void (*fn)(void*), void* data, unsigned, unsigned) { fn(data); }
-bool GOMP_loop_nonmonotonic_dynamic_start(long start, long end, long incr, long chunk, long* istart, long* iend) {
-    g_it = start; g_end = end; g_incr = incr; g_chunk = chunk;
-    if (g_it >= g_end) return false;
-    *istart = g_it; *iend = g_it + g_chunk * g_incr > g_end ? g_end : g_it + g_chunk * g_incr; g_it = *iend;
+
+void GOMP_parallel(void (*fn)(void*), void* data, unsigned num_threads, unsigned /*flags*/) {
+    Task* me = tl_task;
+    Team* outer_team = tl_team; int outer_tid = tl_tid;
+    bool scheduled = g_sched_active && me && g_current == me;
+    int n = 1;
+    if (scheduled) { n = num_threads ? (int)num_threads : g_sim_cores; if (n < 1) n = 1; if (n > 16) n = 16; }
+    Team team; team.n = n; team.master = me; team.remaining = n - 1;
+    if (n > 1) {
+        std::unique_lock<std::mutex> lk(M);
+        g_stats.regions++;
+        Team* tp = &team;
+        for (int i = 1; i < n; i++) new_task([fn, data, tp, i]() { tl_team = tp; tl_tid = i; tl_api_depth = 1; fn(data); tl_api_depth = 0; tl_team = nullptr; tl_tid = 0; }, tp);
+        start_region_clock();
+    }
+    tl_team = &team; tl_tid = 0;
+    if (n > 1) yield_point(SITE_LOOP);           // workers may start before the master
+    fn(data);
+    tl_team = outer_team; tl_tid = outer_tid;
+    if (n > 1) block_until(me, [&team] { return team.remaining == 0; }, "joining an OpenMP team", 1);
+}
+
+static bool ws_next(Team* t, long* istart, long* iend) {
+    if (t->incr > 0 ? t->next >= t->end : t->next <= t->end) return false;
+    long s = t->next, e = s + t->chunk * t->incr;
+    if (t->incr > 0 ? e > t->end : e < t->end) e = t->end;
+    t->next = e; *istart = s; *iend = e;
     return true;
+}
+
+bool GOMP_loop_nonmonotonic_dynamic_start(long start, long end, long incr, long chunk, long* istart, long* iend) {
+    Team* t = tl_team;
+    static thread_local Team orphan;             // work-sharing loop outside any parallel region: team of one
+    if (!t) { t = &orphan; t->n = 1; tl_team = t; }
+    if (!t->ws_init) { t->ws_init = true; t->next = start; t->end = end; t->incr = incr ? incr : 1; t->chunk = chunk > 0 ? chunk : 1; t->ws_ended = 0; }
+    yield_point(SITE_LOOP);
+    return ws_next(t, istart, iend);
 }
 bool GOMP_loop_nonmonotonic_dynamic_next(long* istart, long* iend) {
-    if (g_it >= g_end) return false;
-    *istart = g_it; *iend = g_it + g_chunk * g_incr > g_end ? g_end : g_it + g_chunk * g_incr; g_it = *iend;
-    return true;
+    Team* t = tl_team;
+    if (!t) return false;
+    yield_point(SITE_LOOP);
+    return ws_next(t, istart, iend);
 }
-void GOMP_loop_end_nowait(void) {}
-void GOMP_loop_end(void) {}
-void GOMP_barrier(void) {}
+bool GOMP_loop_dynamic_start(long s, long e, long i, long c, long* a, long* b) { return GOMP_loop_nonmonotonic_dynamic_start(s, e, i, c, a, b); }
+bool GOMP_loop_dynamic_next(long* a, long* b) { return GOMP_loop_nonmonotonic_dynamic_next(a, b); }
+bool GOMP_loop_nonmonotonic_guided_start(long s, long e, long i, long c, long* a, long* b) { return GOMP_loop_nonmonotonic_dynamic_start(s, e, i, c, a, b); }
+bool GOMP_loop_nonmonotonic_guided_next(long* a, long* b) { return GOMP_loop_nonmonotonic_dynamic_next(a, b); }
+bool GOMP_loop_guided_start(long s, long e, long i, long c, long* a, long* b) { return GOMP_loop_nonmonotonic_dynamic_start(s, e, i, c, a, b); }
+bool GOMP_loop_guided_next(long* a, long* b) { return GOMP_loop_nonmonotonic_dynamic_next(a, b); }
+bool GOMP_loop_runtime_start(long s, long e, long i, long* a, long* b) { return GOMP_loop_nonmonotonic_dynamic_start(s, e, i, 1, a, b); }
+bool GOMP_loop_runtime_next(long* a, long* b) { return GOMP_loop_nonmonotonic_dynamic_next(a, b); }
+bool GOMP_loop_static_start(long s, long e, long i, long c, long* a, long* b) { return GOMP_loop_nonmonotonic_dynamic_start(s, e, i, c > 0 ? c : 1, a, b); }
+bool GOMP_loop_static_next(long* a, long* b) { return GOMP_loop_nonmonotonic_dynamic_next(a, b); }
+
+void GOMP_loop_end_nowait(void) {
+    Team* t = tl_team;
+    if (!t) return;
+    if (++t->ws_ended >= t->n) { t->ws_init = false; t->ws_ended = 0; }
+}
+void GOMP_loop_end(void) {
+    // loop end with barrier: wait until every member of the team has finished the loop
+    Team* t = tl_team;
+    if (!t) return;
+    Task* me = tl_task;
+    if (t->n <= 1 || !g_sched_active || !me) { GOMP_loop_end_nowait(); return; }
+    t->ws_ended++;
+    block_until(me, [t] { return t->ws_ended >= t->n || !t->ws_init; }, "a loop-end barrier", 4);
+    t->ws_init = false;
+    { std::unique_lock<std::mutex> lk(M); for (auto* x : g_tasks) if (x->st == Task::BLOCKED && x->wait_kind == 4) x->st = Task::READY; }
+}
+void GOMP_barrier(void) { yield_point(SITE_LOCK); }
+
+// critical sections / atomics: one runnable task at a time, so mutual exclusion only needs an owner record
+void GOMP_critical_start(void) {
+    Task* me = tl_task;
+    if (!g_sched_active || !me || g_current != me) return;
+    yield_point(SITE_LOCK);
+    L.ev("critical.enter", me->id, g_critical_owner ? g_critical_owner->id : -1);
+    if (g_critical_owner && g_critical_owner != me) block_until(me, [] { return g_critical_owner == nullptr; }, "entering a critical section", 3);
+    g_critical_owner = me;
+}
+void GOMP_critical_end(void) {
+    Task* me = tl_task;
+    if (!g_sched_active || !me || g_current != me) return;
+    std::unique_lock<std::mutex> lk(M);
+    g_critical_owner = nullptr;
+    for (auto* t : g_tasks) if (t->st == Task::BLOCKED && t->wait_kind == 3) t->st = Task::READY;   // waiters for the critical section re-check
+}
+void GOMP_critical_name_start(void** /*p*/) { GOMP_critical_start(); }
+void GOMP_critical_name_end(void** /*p*/) { GOMP_critical_end(); }
+void GOMP_atomic_start(void) { GOMP_critical_start(); }
+void GOMP_atomic_end(void) { GOMP_critical_end(); }
+bool GOMP_single_start(void) { return tl_tid == 0; }
+
 int omp_get_max_threads(void) { return sim::g_sim_cores; }
-int omp_get_thread_num(void) { return 0; }
-int omp_get_num_threads(void) { return 1; }
-}
+int omp_get_thread_num(void) { return tl_tid; }
+int omp_get_num_threads(void) { return tl_team ? tl_team->n : 1; }
+int omp_in_parallel(void) { return tl_team && tl_team->n > 1; }
+void omp_set_num_threads(int n) { if (n > 0) sim::g_sim_cores = n; }
+int omp_get_num_procs(void) { return sim::g_sim_cores; }
+
+}  // extern "C"
